@@ -89,6 +89,7 @@ func c01Run(c c01Case, items []rdbgen.Item) string {
 	if err := l.Header(); err != nil {
 		return fail("header", -1, "header rejected: "+err.Error())
 	}
+	var held []*BinEntry
 	for i := 0; ; i++ {
 		e, err := l.NextBinEntry()
 		ev.State(ev.HashS(c01State(l)))
@@ -140,10 +141,19 @@ func c01Run(c c01Case, items []rdbgen.Item) string {
 		case !w.Script && (e.RealMemberCount != 0 || e.NeedReadLen != 1):
 			return fail("chunk-flags", cul, fmt.Sprintf("record %d (key %q): unchunked value flagged RealMemberCount=%d NeedReadLen=%d", i, w.Key, e.RealMemberCount, e.NeedReadLen))
 		}
+		held = append(held, e)
 	}
 	if c.Version >= 5 {
 		if err := l.Footer(); err != nil {
 			return fail("footer", -1, "end-of-file checksum of an intact file rejected: "+err.Error())
+		}
+	}
+	// the records are queued for the workers while the parser goes on: what was delivered earlier
+	// must still be what it was once the whole file has been read
+	for i, e := range held {
+		w := want[i]
+		if e.DB != w.DB || !bytes.Equal(e.Key, w.Key) || !bytes.Equal(e.Value, w.Value) || e.ExpireAt != w.ExpireAt || e.Type != w.Type {
+			return fail("record-changed-later", recItem[i], fmt.Sprintf("record %d (key %q) was correct when delivered and differs after the rest of the file was parsed (storage shared with later records)", i, w.Key))
 		}
 	}
 	return "ok"
